@@ -378,7 +378,10 @@ def run_property(pid):
                 if tier == "thorough":
                     tmax = max(h.get("timeout_thorough", h.get("timeout", 300)) for h in hs)
                 jobs = min(int(os.environ.get("VERIF_JOBS", spec.get("jobs", 6))), len(hs))
-                cmd = kani_cmd(crate, list(full), ov.target, jobs, tmax, playback=(jobs == 1))
+                # concrete playback in the main run only for cheap single-harness checks: trace generation for the
+                # heavy harnesses (C09/C23) makes CBMC run out of memory (status 6)
+                main_pb = jobs == 1 and all(h.get("witness") for h in hs)
+                cmd = kani_cmd(crate, list(full), ov.target, jobs, tmax, playback=main_pb)
                 logf = os.path.join(ov.root, f"kani-{crate}.log")
                 # overall cap: all harnesses could serialise on `jobs` workers
                 waves = (len(hs) + jobs - 1) // jobs
@@ -404,7 +407,7 @@ def run_property(pid):
                     results[h["fn"]] = r
                 # witness pass: concrete values for satisfied cover points of the cheap harnesses (samples for
                 # the evidence file).  Its failure loses samples only, never changes the verdict.
-                wit = {n: h for n, h in full.items() if h.get("witness") and jobs > 1
+                wit = {n: h for n, h in full.items() if h.get("witness") and not main_pb
                        and results.get(h["fn"], {}).get("status") == "SUCCESSFUL"}
                 if wit:
                     wt = int(spec.get("witness_timeout", 120))
